@@ -12,13 +12,13 @@ CHECKS = [
     {
         "id": "C11",
         "technique": "Hypothesis-generated operation histories (stateful, op-list form) over a scripted socket with a history invariant; reader(socket) vs reader(file) differential",
-        "text": "Generated histories of peer sends / timeouts / OS errors / close interleaved with read(n) and readline on SocketWrapper at seven bufsizes; after every step delivered ++ buffered must equal everything recv() handed out, read sizes and readline termination must obey the contract; RTCMReader over a socket with generated segmentation must return what RTCMReader over BytesIO returns. Histories use every OSError subclass as a fault and include 96 KiB .. 2.5 MiB (thorough 9 MiB) streams through one wrapper; the same operations are also driven by a Hypothesis RuleBasedStateMachine. The socket-vs-file differential also runs over chunked (plain / gzip / zlib / deflate) sockets and sockets wrapped by the caller; streams of frames free of sync bytes, cut at the reader's read boundaries with timeouts between segments, must deliver every frame that no stall falls inside, once and in order.",
+        "text": "Generated histories of peer sends / timeouts / OS errors / close interleaved with read(n) and readline on SocketWrapper at seven bufsizes; after every step delivered ++ buffered must equal everything recv() handed out, read sizes and readline termination must obey the contract; RTCMReader over a socket with generated segmentation must return what RTCMReader over BytesIO returns. Histories use every OSError subclass as a fault and include 96 KiB .. 2.5 MiB (thorough 9 MiB) streams through one wrapper; the same operations are also driven by a Hypothesis RuleBasedStateMachine. The socket-vs-file differential also runs over chunked (plain / gzip / zlib / deflate) sockets and sockets wrapped by the caller; streams of frames free of sync bytes, cut at the reader's read boundaries with timeouts between segments, must deliver every frame that no stall falls inside, once and in order. The differential also aligns items to the buffer size, lets every receive fill the buffer exactly, and repeats items hundreds of times inside one compressed chunk.",
         "note": "Scripted sockets stand for the kernel; real socket options are represented only by TimeoutError / OSError from recv().",
     },
     {
         "id": "C12",
         "technique": "exhaustive enumeration of recv partitions for short chunked bodies + Hypothesis-generated bodies / partitions / bufsizes / compression parameters + atheris coverage-guided campaign, all judged by an independent RFC 9112 chunk decoder",
-        "text": "Generated well-formed chunked bodies (plain, gzip, zlib, raw deflate per chunk) are delivered through every composition of the encoded stream for n <= 15, every 1- and 2-cut partition for n <= 120 and generated partitions beyond; the bytes drained from SocketWrapper.read must equal the reference decoding of the unsegmented stream and read must not raise. Around one chunk whose body is not a valid compressed stream, the decoded bodies of the well-formed chunks before and after it must still be delivered.",
+        "text": "Generated well-formed chunked bodies (plain, gzip, zlib, raw deflate per chunk) are delivered through every composition of the encoded stream for n <= 15, every 1- and 2-cut partition for n <= 120 and generated partitions beyond; the bytes drained from SocketWrapper.read must equal the reference decoding of the unsegmented stream and read must not raise. Around one chunk whose body is not a valid compressed stream, the decoded bodies of the well-formed chunks before and after it must still be delivered. Decoded chunk sizes around buffer-size multiples are enumerated for each coding with highly repetitive bodies; gzip members carry optional header fields.",
         "note": "Chunk extensions / trailers are not generated.",
     },
     {
@@ -48,31 +48,31 @@ CHECKS = [
     {
         "id": "C16",
         "technique": PBT + " metamorphic relation between label options across three entry points",
-        "text": "Generated MSM payloads of all 49 types parsed under label options 1, 2, 0 and True through RTCMMessage, the static parser and a stream reader: only CELLSIG_* may differ, True == 1, each signal ID keeps the label of a single-signal probe message; generated non-MSM messages of every identity are identical under all options. One reader per option value is constructed before any is read (options must be bound to the instance), with validation on and off; the two options are also parsed concurrently in threads.",
+        "text": "Generated MSM payloads of all 49 types parsed under label options 1, 2, 0 and True through RTCMMessage, the static parser and a stream reader: only CELLSIG_* may differ, True == 1, each signal ID keeps the label of a single-signal probe message; generated non-MSM messages of every identity are identical under all options. One reader per option value is constructed before any is read (options must be bound to the instance), with validation on and off; the two options are also parsed concurrently in threads. The same frame as bytearray / memoryview, or followed by further bytes with validation off: if a message of the same identity comes back, its labels follow the option given.",
         "note": "What option value 0 selects is not documented; only 'CELLSIG_* at most' is required of it.",
     },
     {
         "id": "C18",
         "technique": PBT + " (helper output vs getattr on the message and vs the independent interpreter) + complete sweep of reserved MSM numbers",
-        "text": "parse_msm on generated MSM messages of all 49 types must agree entry by entry with the flat attributes and the interpreter's values, with the pinned epoch field; parse_4076_201 on generated 4076_201 messages (1-4 layers, up to 153 coefficients) must return exactly the decoded cosine / sine lists; on every other identity and every number in 1070..1229 without a definition both helpers must return None without raising. Both label options are converted for the same payload and another message in between, and every earlier result is checked again afterwards.",
+        "text": "parse_msm on generated MSM messages of all 49 types must agree entry by entry with the flat attributes and the interpreter's values, with the pinned epoch field; parse_4076_201 on generated 4076_201 messages (1-4 layers, up to 153 coefficients) must return exactly the decoded cosine / sine lists; on every other identity and every number in 1070..1229 without a definition both helpers must return None without raising. Both label options are converted for the same payload and another message in between, and every earlier result is checked again afterwards. Sub-type 201 bits under every other message number (complete) must leave the coefficient helper returning nothing.",
         "note": "Constellation name strings are not pinned.",
     },
     {
         "id": "C01",
         "technique": PBT + " (recording / fault-injecting stream double + independent frame validator) + atheris coverage-guided fuzzing with the same oracle inside the target",
-        "text": "Generated adversarial streams (valid, bit-damaged, truncated and decoy frames, frames nested in UBX/NMEA/other frames, sync-dense noise) crossed with generated scripts of short and empty reads and all error modes; every delivered pair must be a well-formed frame by the harness's own validator, a contiguous in-order non-overlapping slice of the bytes handed out, with matching payload and message number. Sampled search. Streams also go through a scripted socket with timeouts / OS errors between segments; items include CRC-twin frames (same trailer, different payload), zero-body-CRC and jumbo (reserved bits as length) decoys and frames with look-alike trailers; deliveries are judged after the whole stream has been read. Stream kinds also include a plain seekable file and chunked (plain / gzip / zlib / deflate per chunk) sockets; after the stream has run dry the same reader is iterated twice more and whatever that delivers is judged the same way.",
+        "text": "Generated adversarial streams (valid, bit-damaged, truncated and decoy frames, frames nested in UBX/NMEA/other frames, sync-dense noise) crossed with generated scripts of short and empty reads and all error modes; every delivered pair must be a well-formed frame by the harness's own validator, a contiguous in-order non-overlapping slice of the bytes handed out, with matching payload and message number. Sampled search. Streams also go through a scripted socket with timeouts / OS errors between segments; items include CRC-twin frames (same trailer, different payload), zero-body-CRC and jumbo (reserved bits as length) decoys and frames with look-alike trailers; deliveries are judged after the whole stream has been read. Stream kinds also include a plain seekable file and chunked (plain / gzip / zlib / deflate per chunk) sockets; after the stream has run dry the same reader is iterated twice more and whatever that delivers is judged the same way. Further decoys: text inside a frame at the reader's read boundaries with receive boundaries around it, a UBX extent that splits a frame behind an NMEA header; items aligned to the receive-buffer size; stutters (a rejected item repeated, a good frame, a rejected item); caster response headers.",
         "note": "Trusts the harness's CRC / frame validator; which frames are delivered is left to C02/C05.",
     },
     {
         "id": "C04",
         "technique": PBT + " / totality oracle (exception whitelist + deterministic stream-call bound) + atheris coverage-guided fuzzing (empty and seeded corpora); enumeration of all 4096 numbers x short lengths",
-        "text": "Arbitrary and structure-mutated payloads, buffers and streams under every validate / quitonerror combination; the only admissible outcomes are an object, StopIteration or a pyrtcm exception class, the iterator raises nothing in ignore/log modes, and the number of stream calls is bounded (termination). Streams are scripted doubles, files, non-seekable readers, plain and chunked / compressed sockets (also sockets that die, damaged compressed chunks, odd chunk-size lines). Sampled except for the enumerated short-payload space, the long error runs and the largest UBX read requests.",
+        "text": "Arbitrary and structure-mutated payloads, buffers and streams under every validate / quitonerror combination; the only admissible outcomes are an object, StopIteration or a pyrtcm exception class, the iterator raises nothing in ignore/log modes, and the number of stream calls is bounded (termination). Streams are scripted doubles, files, non-seekable readers, plain and chunked / compressed sockets (also sockets that die, damaged compressed chunks, odd chunk-size lines). Sampled except for the enumerated short-payload space, the long error runs and the largest UBX read requests. Socket streams may start with a caster's response header (complete, malformed, cut off); rejected items are repeated around good frames.",
         "note": "Termination is decided as a bound on stream calls and, for loops that never touch the stream, as a deterministic count of library line events relative to the declared input size - never CPU time.",
     },
     {
         "id": "C05",
         "technique": PBT + " (list model of the stream: undamaged frames, handler / log-record / exception counts)",
-        "text": "Generated streams of valid frames with generated subsets damaged by guaranteed-detectable patterns at generated positions, under ignore / log+handler / log without handler / raise; the reader must return exactly the undamaged frames in order, report once per damaged frame in log mode, never in ignore mode, and in raise mode raise at each damaged frame in event order while the same reader keeps working. Also enumerated completely: every message number in a 2-byte-payload frame x every single-bit damage position; long runs (1200 / 10000) of consecutive damaged frames; re-broadcast frames damaged twice; handler objects of several kinds (incl. falsy callables).",
+        "text": "Generated streams of valid frames with generated subsets damaged by guaranteed-detectable patterns at generated positions, under ignore / log+handler / log without handler / raise; the reader must return exactly the undamaged frames in order, report once per damaged frame in log mode, never in ignore mode, and in raise mode raise at each damaged frame in event order while the same reader keeps working. Also enumerated completely: every message number in a 2-byte-payload frame x every single-bit damage position; long runs (1200 / 10000) of consecutive damaged frames; re-broadcast frames damaged twice; handler objects of several kinds (incl. falsy callables). Handlers include callable objects with logger- / file-like attributes and functools.partial.",
         "note": "Damage is confirmed detectable by the harness's CRC reference before use.",
     },
     {
@@ -90,13 +90,13 @@ CHECKS = [
     {
         "id": "C14",
         "technique": PBT + " over assignment sequences with full before/after snapshots",
-        "text": "Generated messages of every kind x generated sequences of setattr on public, derived, private, property and fresh names with values of several types; each must raise RTCMMessageError and payload, identity, attributes, str, repr, serialize() and the private dict must be unchanged. Messages come from every entry point (constructor, static parser, file and socket readers, copy, deepcopy, pickle); augmented assignment is tried as well; failing and succeeding constructions of other messages are interleaved with the attempts.",
+        "text": "Generated messages of every kind x generated sequences of setattr on public, derived, private, property and fresh names with values of several types; each must raise RTCMMessageError and payload, identity, attributes, str, repr, serialize() and the private dict must be unchanged. Messages come from every entry point (constructor, static parser, file and socket readers, copy, deepcopy, pickle); augmented assignment is tried as well; failing and succeeding constructions of other messages are interleaved with the attempts. Every byte-truncation and extension of generated payloads of every identity is also handed to the constructor: whatever object comes back must refuse assignment and stay unchanged.",
         "note": "del / __dict__ pokes / object.__setattr__ are outside the statement.",
     },
     {
         "id": "C15",
         "technique": "complete enumeration of the 4096 x 256 header space (generated tails) against an arithmetic reference, plus PBT over full payloads of implemented identities",
-        "text": "All 4096 message numbers x all 256 sub-type byte values are constructed on every run (about 1.05 M constructor calls in the quick tier, more tails and versions in thorough); identity, DF002, stub preservation, canonical serialisation and the MSM predicate are judged against an arithmetic reference and a pinned MSM roster. Also: fresh child interpreters where several threads construct messages of implemented identities at once (lazily built dispatch).",
+        "text": "All 4096 message numbers x all 256 sub-type byte values are constructed on every run (about 1.05 M constructor calls in the quick tier, more tails and versions in thorough); identity, DF002, stub preservation, canonical serialisation and the MSM predicate are judged against an arithmetic reference and a pinned MSM roster. Also: fresh child interpreters where several threads construct messages of implemented identities at once (lazily built dispatch). Every sub-type of 4076 is built with every payload length from 3 to 14 bytes.",
         "note": "Exhaustive over headers; tails are deterministic samples.",
     },
     {
@@ -108,7 +108,7 @@ CHECKS = [
     {
         "id": "C02",
         "technique": PBT + " (generator's own list of emitted frames as oracle; BytesIO / BufferedReader / scripted-socket streams)",
-        "text": "Generated well-formed sequences of frames of every defined and unknown type (incl. 0/1-byte filler and 1023-byte frames), NMEA, UBX and inert noise, iterated through RTCMReader over three stream kinds with generated segmentation; the returned raw frames must contain every number-carrying frame exactly once, in order, byte for byte, and iteration must stop cleanly. Sampled search; no absence claim.",
+        "text": "Generated well-formed sequences of frames of every defined and unknown type (incl. 0/1-byte filler and 1023-byte frames), NMEA, UBX and inert noise, iterated through RTCMReader over three stream kinds with generated segmentation; the returned raw frames must contain every number-carrying frame exactly once, in order, byte for byte, and iteration must stop cleanly. Sampled search; no absence claim. Items are also placed at chosen distances (-3..3) from multiples of the buffer size (512 / 4096 / 8192, files and sockets; complete), and UBX length fields around every multiple of 4096 and power of two are enumerated.",
         "note": "Trusts the harness's frame builder / CRC reference and the pinned NMEA talker list; filler frames may or may not be returned themselves.",
     },
     {
@@ -120,7 +120,7 @@ CHECKS = [
     {
         "id": "C08",
         "technique": PBT + " (two independent CRC-24Q references); exhaustive single-bit / burst-start sweeps per generated frame",
-        "text": "Generated byte strings 0..1029 compared with two independent CRC-24Q implementations; generated valid frames x guaranteed-detectable damage patterns must raise RTCMParseError (all single-bit positions and all burst starts enumerated per frame); validate=0 differential. Sampled over frames, so no absence claim. Frames include nested-prefix, encapsulating (prefix and suffix are codewords), zero-CRC and chosen-trailer frames; a validate=0 parse followed by a validating parse of the same damaged bytes; first use of the CRC helper by several threads at once in fresh interpreters.",
+        "text": "Generated byte strings 0..1029 compared with two independent CRC-24Q implementations; generated valid frames x guaranteed-detectable damage patterns must raise RTCMParseError (all single-bit positions and all burst starts enumerated per frame); validate=0 differential. Sampled over frames, so no absence claim. Frames include nested-prefix, encapsulating (prefix and suffix are codewords), zero-CRC and chosen-trailer frames; a validate=0 parse followed by a validating parse of the same damaged bytes; first use of the CRC helper by several threads at once in fresh interpreters. Frames whose trailer is chosen to equal what a header-led validator would compute (prefix of the damaged length, syndrome of the flip) are damaged in the header bits; frame-shaped non-codewords are inputs of the helpers.",
         "note": "Trusts the harness's CRC references (checked against the catalogue value 0xCDE703) and Hypothesis' generators.",
     },
 ]
